@@ -16,10 +16,10 @@ PROPS = {
     'C11': ['COW', 'CLEARALL', 'HASHCONS', 'CACHELIFE', 'ALPHASRC'],
     'C13': ['TEXT', 'LOADROLE', 'PARAMPATH', 'PAIRFIELD', 'FORWARD', 'SCRATCHRESET', 'NOTHROW'],
     'C12': ['COW', 'HASHCONS', 'ITER', 'NONEMPTY', 'CLEARALL', 'PARAMPATH', 'USEDSTATES'],
-    'C14': ['KIND', 'COW', 'FORWARD', 'SCRATCHRESET'],
+    'C14': ['KIND', 'COW', 'FORWARD', 'SCRATCHRESET', 'HASHCONS'],
     'C15': ['FINCHK', 'WORKLIST', 'DRAIN', 'KIND', 'HASHCONS', 'COW', 'FORWARD', 'COUNTGUARD', 'ACCRET'],
     'C17': ['CANON', 'TEXT'],
-    'C18': ['REFCNT'],
+    'C18': ['REFCNT', 'CANON'],
     'C19': ['KIND', 'SIMMAP', 'DISPATCH', 'SIBLING', 'ACDUAL', 'ORDTOTAL', 'FRAMERESET', 'HASHEQ', 'MEMO', 'KEYFIELDS', 'ADDRKEY', 'QUEUEENDS', 'CLIOPT'],
     'C20': ['INIT', 'FALLOFF', 'PAIRFIELD', 'COPYALL', 'FRAMERESET', 'CACHELIFE', 'LOOPBOUND', 'ERASER', 'STALESIZE', 'ITER', 'NONEMPTY', 'USEMOVE', 'INSETLABEL'],
 }
@@ -65,6 +65,24 @@ FILTER = {
     ('C14', 'COW'): r'explicit_tree', ('C14', 'KIND'): r'explicit_tree|explicit_finite|bdd_',
     ('C19', 'KIND'): r'explicit_tree',
 }
+
+# (property, rule) -> regex on the obligation id: only those clauses of the rule are attributed to the property
+OBFILTER = {
+    ('C18', 'CANON'): r'^C3$',      # memo tables hold raw, uncounted node pointers: they must not outlive one application
+}
+
+
+def attributed(prop, rec):
+    """does this site of a rule count for the property (file and clause filters)?"""
+    import re
+    flt = FILTER.get((prop, rec['rule']))
+    if flt and not re.search(flt, rec['file']):
+        return False
+    ob = OBFILTER.get((prop, rec['rule']))
+    if ob and not re.search(ob, rec.get('obligation') or ''):
+        return False
+    return True
+
 
 _mods = {}
 
